@@ -151,3 +151,43 @@ def offsets(case, d):
         except Exception as e:
             out.append(['exc', type(e).__name__])
     return out
+
+
+def warnerr(case, d):
+    """warnings are errors (python -W error) and the description says the array was written by a NEWER
+    version of the library: every access raises -- and must leave no descriptor or map behind"""
+    import json
+    import warnings
+    path = os.path.join(d, 'arr')
+    a = darr.asarray(path, np.arange(6, dtype=case['dtype']), accessmode='r+')
+    jp = os.path.join(path, 'arraydescription.json')
+    info = json.load(open(jp))
+    good = dict(info)
+    info['darrversion'] = '99.0.0'
+    json.dump(info, open(jp, 'w'))
+    out = []
+    with warnings.catch_warnings():
+        warnings.simplefilter('error')
+        for what in case['accesses']:
+            try:
+                if what == 'get':
+                    a[0]
+                elif what == 'set':
+                    a[0] = 1
+                elif what == 'iter':
+                    next(a.iterchunks(2))
+                elif what == 'ctx':
+                    with a.open_array():
+                        pass
+                elif what == 'fresh':
+                    darr.Array(path)[0]
+                res = 'ok'
+            except Exception as e:
+                res = type(e).__name__
+            out.append(dict(what=what, res=res, leak=fdcount(path)))
+    json.dump(good, open(jp, 'w'))
+    try:
+        out.append(dict(what='afterwards', res=int(a[1]), leak=fdcount(path)))
+    except Exception as e:
+        out.append(dict(what='afterwards', res=type(e).__name__, leak=fdcount(path)))
+    return out
